@@ -12,8 +12,8 @@ import Econf.Lemmas.GrammarLemmas
   Delimiter sets covered by the proof (`CfgWF`): every non-empty set without the line break and the
   quote – no blank among the delimiters (`=`, `:`, `=:`), only blanks (` `, ` \t`), or mixed (` =`); the
   three classes take different paths through `read_file` (`skipDelim_core`).  A last line without its
-  line break is covered by `C02_no_final_newline` (and, for any line at all, `parseLine_noeol`).  Not
-  covered by a theorem: the keys-only format (no delimiter at all).
+  line break is covered by `C02_no_final_newline` (and, for any line at all, `parseLine_noeol`).  The
+  keys-only format (no delimiter at all, or the lone line break) has its own kind of line, `Item.keyonly`.
 -/
 
 set_option linter.unusedSimpArgs false
@@ -41,6 +41,14 @@ theorem C02_parse_render (cfg : Cfg) (doc : List Item) (hw : CfgWF cfg.eff) (h :
 theorem C02_parse_render_plain (cfg : Cfg) (doc : List Item) (hw : CfgWF cfg.eff) (h : ∀ it ∈ doc, it.WF cfg.eff)
     (hj : cfg.join = false) : parseBytes cfg (render doc) = .ok (expDoc doc) := by
   rw [C02_parse_render cfg doc hw h, hj]; rfl
+
+/-- the same for the decidable form of the hypotheses: what the model driver evaluates (`--docwf`) on
+    every document the correspondence run generates -/
+theorem C02_in_domain (cfg : Cfg) (doc : List Item) (h : docInDomain cfg.eff doc = true) (hj : cfg.join = false) :
+    parseBytes cfg (render doc) = .ok (expDoc doc) := by
+  unfold docInDomain at h
+  simp only [Bool.and_eq_true, decide_eq_true_eq, List.all_eq_true] at h
+  exact C02_parse_render_plain cfg doc h.1 h.2 hj
 
 /-! ### the expected state in plain terms
 
@@ -126,6 +134,41 @@ theorem C02_entry_item (cfg : Cfg) (st : PState) (e : EntryI) (h : e.WF cfg) :
 
 
 /-! ### a last line without line break -/
+
+/-- **C02, keys-only lines in plain terms.**  A line of the keys-only format contributes one entry
+    without value: the section open at that point, the whole text of the line as key. -/
+theorem C02_keyonly_item (cfg : Cfg) (st : PState) (ind key trail : Str) (tc : Option TrailC)
+    (h : (Item.keyonly ind key trail tc).WF cfg) :
+    expItem st (.keyonly ind key trail tc) =
+      { st with
+        entries := st.entries ++ [{
+          group := st.curGroup.getD NONE
+          key := key
+          value := none
+          cb := st.cb
+          ca := caWith st.ca tc
+          line := st.line + 1
+          quotes := false }]
+        groups := addGroup st.groups (st.curGroup.getD NONE)
+        cb := none
+        ca := none
+        line := st.line + 1 } := by
+  obtain ⟨_, _, _, hne, _, _, hlast, _⟩ := h
+  have htrim : trimKey key = key := by
+    cases hk : key with
+    | nil => rfl
+    | cons k ks =>
+      have : dropLastWhile isSpace ks = ks := by
+        have := dropLastWhile_text_blanks ks [] (by intro c hc; cases hc) (by
+          intro c hc
+          apply hlast c
+          rw [hk]
+          cases ks with
+          | nil => simp at hc
+          | cons y ys => simpa [List.getLast?_cons_cons] using hc)
+        simpa using this
+      simp only [trimKey, this]
+  simp only [expItem, storeNew, htrim]
 
 theorem mem_takeWhile_pos {α} (p : α → Bool) (l : List α) (x : α) (h : x ∈ l.takeWhile p) : p x = true := by
   induction l with
@@ -393,7 +436,7 @@ def exDoc : List Item :=
   [ .comment [] 0x23 [0x20, 0x6c], .blank [0x20], .sect [] [0x53] [0x20] none, .entry exEntry1, .entry exEntry2 ]
 
 theorem exCfg_wf : CfgWF exCfg.eff := by
-  refine ⟨by decide, by decide, by decide, by decide, by decide, by decide, by decide, by decide, by decide, by decide⟩
+  refine ⟨by decide, by decide, by decide, by decide, by decide, by decide, by decide, by decide⟩
 
 theorem exDoc_wf : ∀ it ∈ exDoc, it.WF exCfg.eff := by
   intro it hit
@@ -437,7 +480,7 @@ def exDocB : List Item :=
     .entry { indent := [0x20], key := [0x71], ws1 := [0x0b], d := 0x20, ws2 := [], value := .quoted [0x61, 0x20, 0x62], tws := [0x20], tc := none, cont := [] } ]
 
 theorem exCfgB_wf : CfgWF exCfgB.eff :=
-  ⟨by decide, by decide, by decide, by decide, by decide, by decide, by decide, by decide, by decide, by decide⟩
+  ⟨by decide, by decide, by decide, by decide, by decide, by decide, by decide, by decide⟩
 
 theorem exDocB_wf : ∀ it ∈ exDocB, it.WF exCfgB.eff := by
   intro it hit
@@ -462,7 +505,7 @@ def exDocM : List Item :=
     .entry { indent := [], key := [0x63], ws1 := [], d := 0x3d, ws2 := [], value := .plain [], tws := [], tc := none, cont := [] } ]
 
 theorem exCfgM_wf : CfgWF exCfgM.eff :=
-  ⟨by decide, by decide, by decide, by decide, by decide, by decide, by decide, by decide, by decide, by decide⟩
+  ⟨by decide, by decide, by decide, by decide, by decide, by decide, by decide, by decide⟩
 
 theorem exDocM_wf : ∀ it ∈ exDocM, it.WF exCfgM.eff := by
   intro it hit
@@ -475,5 +518,31 @@ example : parseBytes exCfgM (render exDocM) = .ok (expDoc exDocM) :=
   C02_parse_render_plain exCfgM exDocM exCfgM_wf exDocM_wf rfl
 
 example : (expDoc exDocM).entries.map (fun e => (e.key, e.value)) = [([0x61], some [0x31]), ([0x62], some [0x32]), ([0x63], none)] := by decide
+
+/-! ### the keys-only format (no delimiter at all) -/
+
+def exCfgK : Cfg := { delim := [], comment := [0x23] }
+def exDocK : List Item :=
+  [ .comment [] 0x23 [0x20, 0x78], .sect [] [0x53] [] none,
+    .keyonly [0x20] [0x74, 0x77, 0x6f, 0x20, 0x77, 0x6f, 0x72, 0x64, 0x73] [0x20, 0x09] (some { c := 0x23, text := [0x74] }),
+    .keyonly [] [0x6b] [] none ]
+
+theorem exCfgK_wf : CfgWF exCfgK.eff :=
+  ⟨by decide, by decide, by decide, by decide, by decide, by decide, by decide, by decide⟩
+
+theorem exDocK_wf : ∀ it ∈ exDocK, it.WF exCfgK.eff := by
+  intro it hit
+  simp only [exDocK, List.mem_cons, List.not_mem_nil, or_false] at hit
+  rcases hit with rfl | rfl | rfl | rfl
+  · exact ⟨by decide, by decide, by decide⟩
+  · exact ⟨by decide, by decide, by decide, by decide, trivial⟩
+  · exact ⟨by decide, by decide, by decide, by decide, by decide, by decide, by decide, ⟨by decide, by decide, by decide, by decide⟩⟩
+  · exact ⟨by decide, by decide, by decide, by decide, by decide, by decide, by decide, trivial⟩
+
+example : parseBytes exCfgK (render exDocK) = .ok (expDoc exDocK) :=
+  C02_parse_render_plain exCfgK exDocK exCfgK_wf exDocK_wf rfl
+
+example : (expDoc exDocK).entries.map (fun e => (e.group, e.key, e.value, e.ca, e.line)) =
+    [([0x53], [0x74, 0x77, 0x6f, 0x20, 0x77, 0x6f, 0x72, 0x64, 0x73], none, some [0x74], 3), ([0x53], [0x6b], none, none, 4)] := by decide
 
 end Econf
